@@ -1,5 +1,302 @@
 package provsim
 
-import "verifsim/core"
+import (
+	"context"
+	"fmt"
+	"math/rand"
+	"time"
 
-func runC14L2(r *core.Run) (*core.Violation, func() *core.Violation) { return runC14(r), nil }
+	sdk "github.com/cosmos/cosmos-sdk/types"
+	"github.com/tendermint/tendermint/libs/log"
+
+	"github.com/ovrclk/akash/provider/cluster"
+	ctypes "github.com/ovrclk/akash/provider/cluster/types"
+	"github.com/ovrclk/akash/provider/event"
+	"github.com/ovrclk/akash/provider/session"
+	"github.com/ovrclk/akash/pubsub"
+	dtypes "github.com/ovrclk/akash/x/deployment/types"
+	mquery "github.com/ovrclk/akash/x/market/query"
+	mtypes "github.com/ovrclk/akash/x/market/types"
+	ptypes "github.com/ovrclk/akash/x/provider/types"
+
+	"verifsim/core"
+	"verifsim/simrt"
+)
+
+// ------------------------------------------------------------------ C14, Layer 2: the same cluster service,
+// but every goroutine of service / manager / hostname service / inventory / monitor / bus is resumed
+// one scheduling point at a time, so a lease-closed signal can land while the manager is still
+// waiting for its hostname reservation, or between two of its states.
+
+func runC14L2(r *core.Run) (*core.Violation, func() *core.Violation) {
+	x := &c14{r: r, s: NewSched(r)}
+	rand.Seed(1)
+	x.faults = r.Weighted([]int{4, 3, 2}, "knob.faults")
+	nLeases := 1 + r.Choose(2, "knob.leases")
+	maxSteps := 60 + r.Choose(400, "knob.l2steps")
+	tail := 20 + r.Choose(80, "knob.l2tail")
+	injections := 2 + r.Choose(6, "knob.injections")
+	prov := testAddr(1)
+	tenant := testAddr(3)
+	x.prov = ptypes.Provider{Owner: prov.String(), HostURI: "https://p.example.com"}
+	x.s.Respond = func(c *Call) (interface{}, error) {
+		switch c.Method {
+		case "Cluster.Inventory":
+			return []ctypes.Node{bigNode()}, nil
+		case "Cluster.LeaseStatus":
+			lid := c.Args.(mtypes.LeaseID)
+			st := &ctypes.LeaseStatus{Services: map[string]*ctypes.ServiceStatus{}}
+			for _, l := range x.leases {
+				if l.id.Equals(lid) {
+					for i, res := range l.group.GroupSpec.Resources {
+						st.Services[fmt.Sprintf("svc%d", i)] = &ctypes.ServiceStatus{Name: fmt.Sprintf("svc%d", i), Available: int32(res.Count), Total: int32(res.Count)}
+					}
+				}
+			}
+			return st, nil
+		}
+		return nil, nil
+	}
+	simrt.Enable(r)
+	released := false
+	release := func() {
+		if !released {
+			released = true
+			simrt.ReleaseAll()
+		}
+	}
+	slow := r.Bool(50, "knob.slow-cluster")
+	loop := &l2Loop{r: r, s: x.s, faults: x.faults, weight: func(c *Call) int {
+		if slow && (c.Method == "Cluster.Deploy" || c.Method == "Cluster.TeardownLease") {
+			return 1 // slow cluster: operations stay in flight for many scheduling decisions
+		}
+		return 6
+	}, failable: func(c *Call) bool { return c.Method == "Cluster.Deploy" || c.Method == "Cluster.TeardownLease" }}
+	ctx, cancel := context.WithCancel(context.Background())
+	x.cancel = cancel
+	defer func() {
+		release()
+		if x.svc != nil {
+			go x.svc.Close()
+			for i := 0; i < 200; i++ {
+				x.s.Settle()
+				if isDone(x.svc.Done()) {
+					break
+				}
+				for _, c := range x.s.Pending() {
+					x.s.Complete(c, nil)
+				}
+				time.Sleep(time.Second)
+			}
+		}
+		x.cancel()
+		if x.bus != nil {
+			x.bus.Close()
+		}
+		x.s.Settle()
+	}()
+	// setup runs as a simulated task under a fair schedule
+	setupDone := false
+	simrt.Go("setup", func() {
+		x.bus = pubsub.NewBus()
+		cl := &cluChainClient{q: &cluQuery{}, tx: &cluTx{s: x.s, inc: 1}}
+		sess := session.New(log.NewNopLogger(), cl, &x.prov)
+		cfg := cluster.NewDefaultConfig()
+		cfg.InventoryExternalPortQuantity = 100
+		var err error
+		x.svc, err = cluster.NewService(ctx, sess, x.bus, &cluClient{s: x.s, inc: 1}, cfg)
+		if err != nil {
+			panic(err)
+		}
+		for i := 0; i < nLeases; i++ {
+			oid := mtypes.OrderID{Owner: tenant.String(), DSeq: uint64([]int{1, 12}[i]), GSeq: 1, OSeq: 1}
+			gs := simpleGroupSpec("web", 10, 1)
+			l := &mLease{id: mtypes.MakeLeaseID(mtypes.MakeBidID(oid, prov)), group: dtypes.Group{GroupID: oid.GroupID(), State: dtypes.GroupOpen, GroupSpec: gs}}
+			l.key = mquery.LeasePath(l.id)
+			l.hosts = []string{fmt.Sprintf("app%d.example.com", i)}
+			x.leases = append(x.leases, l)
+			if _, err := x.svc.Reserve(oid, gs); err != nil {
+				panic(fmt.Sprintf("harness: initial reservation failed: %v", err))
+			}
+			l.reserved = true
+		}
+		setupDone = true
+	})
+	loop.drain(600, func() bool { return setupDone })
+	if !setupDone {
+		panic("harness: C14 L2 setup did not complete under a fair schedule")
+	}
+	r.Logf("L2 knobs: leases=%d steps=%d faults=%d injections=%d", nLeases, maxSteps, x.faults, injections)
+	inflightInject := 0
+	inject := func(name string, ev interface{}, after func()) {
+		inflightInject++
+		simrt.Go(name, func() {
+			if err := x.bus.Publish(ev); err != nil {
+				panic(err)
+			}
+			after()
+			inflightInject--
+		})
+	}
+	loop.extra = func() []l2Stim {
+		var st []l2Stim
+		if injections > 0 && inflightInject == 0 {
+			for _, l := range x.leases {
+				l := l
+				if l.closedAt != 0 {
+					continue
+				}
+				st = append(st, l2Stim{"manifest", 3, func() {
+					injections--
+					l.lastSent++
+					v := l.lastSent
+					m, _ := x.manifestFor(l, v)
+					if in := x.inflight(l); in != "" {
+						r.Count("probe:l2-update-during-" + in)
+					}
+					r.Ops++
+					r.Mutating++
+					r.Logf("step %d: inject ManifestReceived %s v%d", x.s.Step, l.key, v)
+					inject("inject-manifest", event.ManifestReceived{LeaseID: l.id, Manifest: m, Group: &l.group, Deployment: &dtypes.QueryDeploymentResponse{}}, func() {})
+				}})
+				if l.lastSent > 0 {
+					st = append(st, l2Stim{"close", 2, func() {
+						injections--
+						deployed := len(x.s.CallsWhere(func(c *Call) bool { return c.Key == "Cluster.Deploy "+l.key })) > 0
+						if !deployed {
+							r.Count("probe:l2-close-before-first-deploy-started")
+						}
+						if in := x.inflight(l); in != "" {
+							r.Count("probe:l2-close-during-" + in)
+						}
+						l.closedAt = x.s.Step
+						l.closedWith = true
+						r.Ops++
+						r.Mutating++
+						r.Logf("step %d: inject EventLeaseClosed %s", x.s.Step, l.key)
+						inject("inject-close", mtypes.NewEventLeaseClosed(l.id, sdk.NewInt64Coin("uakt", 10)), func() {})
+					}})
+				}
+			}
+		}
+		st = append(st, l2Stim{"clock", 1, func() {
+			d := []time.Duration{time.Second, 6 * time.Second, 20 * time.Second}[r.Choose(3, "clock.d")]
+			time.Sleep(d)
+			r.SimTime += int64(d / time.Millisecond)
+			r.Logf("step %d: clock +%v", x.s.Step, d)
+		}})
+		return st
+	}
+	loop.onStep = func() *core.Violation {
+		for _, c := range x.s.CallsWhere(func(c *Call) bool { return c.Method == "Cluster.Deploy" && !c.OK && c.End != 0 }) {
+			for _, l := range x.leases {
+				if c.Key == "Cluster.Deploy "+l.key {
+					l.deployFail = true
+				}
+			}
+		}
+		return x.checkSafetyL2()
+	}
+	// exploration ends when the step budget is used up, or some steps after the last injection
+	quietSince := -1
+	if v := loop.run(maxSteps, func() bool {
+		if injections == 0 && inflightInject == 0 {
+			if quietSince < 0 {
+				quietSince = loop.steps
+			}
+			return loop.steps-quietSince > tail
+		}
+		return false
+	}); v != nil {
+		return v, nil
+	}
+	// fair drain, no more faults, until the obligations are met or the budget is gone
+	var why string
+	for round := 0; round < 60; round++ {
+		loop.drain(40, func() bool { return false })
+		x.s.Settle()
+		if v := loop.onStep(); v != nil {
+			return v, nil
+		}
+		var v *core.Violation
+		why, v = x.obligationsL2(false)
+		if v != nil {
+			return v, nil
+		}
+		if why == "" && inflightInject == 0 {
+			busy := false
+			for _, c := range x.s.Pending() {
+				if c.Method == "Cluster.Deploy" || c.Method == "Cluster.TeardownLease" {
+					busy = true
+				}
+			}
+			if !busy {
+				break
+			}
+		}
+		time.Sleep(3 * time.Second)
+	}
+	if _, v := x.obligationsL2(true); v != nil {
+		return v, nil
+	}
+	if why != "" {
+		return r.Flag("C14/l2-no-progress-after-faults-stopped", "after a fair drain with no further faults: %s", why), nil
+	}
+	r.SimTime += int64(loop.steps)
+	r.Count("probe:l2-runs-completed")
+	for _, l := range x.leases {
+		r.Abstract(fmt.Sprintf("%s sent=%d closed=%v fail=%v ops=%d", l.key[len(l.key)-8:], l.lastSent, l.closedAt != 0, l.deployFail, len(x.opsOf(l))))
+		if l.closedAt != 0 {
+			r.Count("probe:l2-teardown-obligation-met")
+		}
+	}
+	return nil, nil
+}
+
+// checkSafetyL2: no two cluster operations of a lease overlap; no deploy starts once a teardown started.
+func (x *c14) checkSafetyL2() *core.Violation {
+	r := x.r
+	for _, l := range x.leases {
+		ops := x.opsOf(l)
+		firstTeardown := -1
+		for i, c := range ops {
+			if c.Method == "Cluster.TeardownLease" && firstTeardown < 0 {
+				firstTeardown = i
+			}
+			if c.Method == "Cluster.Deploy" && firstTeardown >= 0 {
+				return r.Flag("C14/deploy-after-teardown-requested", "lease %s: %s was started after teardown had begun (%s)", l.key, c, ops[firstTeardown])
+			}
+			for j := i + 1; j < len(ops); j++ {
+				a, b := c, ops[j]
+				if a.End == 0 || b.Start < a.End {
+					return r.Flag("C14/concurrent-cluster-operations", "lease %s: %s was started while %s was still running", l.key, b, a)
+				}
+			}
+		}
+	}
+	return nil
+}
+
+// obligationsL2: closed lease => teardown after the last deploy; otherwise the last deploy carries the
+// latest manifest.  The lease-closed signal is certainly known to the manager once everything has
+// been scheduled fairly; a deploy that failed ends the manager (exempt by the statement).
+func (x *c14) obligationsL2(final bool) (string, *core.Violation) {
+	for _, l := range x.leases {
+		if l.closedAt != 0 && l.deployFail {
+			// deploy failed before or after the close: the manager may have ended without teardown (exempt)
+			continue
+		}
+	}
+	saved := map[*mLease]bool{}
+	for _, l := range x.leases {
+		saved[l] = l.closedWith
+		if l.deployFail {
+			l.closedWith = false
+		}
+	}
+	why, v := x.obligations(final)
+	for _, l := range x.leases {
+		l.closedWith = saved[l]
+	}
+	return why, v
+}
